@@ -75,6 +75,8 @@ def model_coefmap(ans):
             l, k = O.from_gp(g, p)
             out[l] = out.get(l, 0) + complex(float(c[0]), float(c[1])) * (1j ** k)
         return kind, {k: v for k, v in out.items() if v != 0}
+    if kind == 'zero':        # the polynomial without terms: its number of qubits is part of the value
+        return 'poly', {}, int(parts[2])
     if kind == 'plist':
         return kind, ('plist', H.drows_ops(parts[2]))
     return kind, ('num', E.dcx(parts[2]))
@@ -91,7 +93,7 @@ def run(ctx):
         return 'r%d' % reg[0]
 
     def leaf(n):
-        k = rng.choice(['pauli', 'pauli', 'mono', 'poly', 'poly', 'num', 'plist'])
+        k = rng.choice(['pauli', 'pauli', 'mono', 'poly', 'poly', 'num', 'plist', 'zero'])
         name = fresh()
         if k == 'pauli':
             o = G.rand_op(rng, n)
@@ -107,6 +109,12 @@ def run(ctx):
             terms = [(t, complex(rng.choice(COEF))) for t in terms]
             ctx.drv.ask('P set %s poly %s' % (name, E.epoly([O.to_g(t[0][0]) for t in terms], [t[0][1] for t in terms], [t[1] for t in terms])))
             return Node(k, impl.poly(terms), sum(c * O.dense(o) for o, c in terms), name)
+        if k == 'zero':
+            # a polynomial without terms, as the library itself produces it (complete cancellation): a - a
+            o = G.rand_op(rng, n)
+            ctx.drv.ask('P set %s zero %d' % (name, n))
+            base_ = impl.poly([(o, 1.0 + 0j)])
+            return Node('poly', base_ - base_, np.zeros((2 ** n, 2 ** n), dtype=complex), name)
         if k == 'plist':
             ops = [G.rand_op(rng, n) for _ in range(rng.randrange(1, 3))]
             ctx.drv.ask('P set %s plist %s' % (name, H.erows_ops(ops)))
@@ -155,8 +163,13 @@ def run(ctx):
             return None
         mk = model_coefmap(ans)
         ik = (kind_of(v, impl), coefmap(v, impl))
+        if ik == ('poly', {}):
+            ik = ('poly', {}, int(v.N))
         if mk != ik:
             ctx.mismatch(op, desc, str(mk)[:600], str(ik)[:600])
+        if len(ik) == 3 and ik[2] != n:
+            ctx.fail(type(a.val).__name__ + '.' + op, 'the result of %s has no terms and is a polynomial on %d qubits instead of %d' % (desc, ik[2], n),
+                     dict(op=desc, a=str(coefmap(a.val, impl))[:400], b=str(coefmap(b.val, impl) if isinstance(b, Node) else b)[:400]))
         if not ans.startswith('ok'):
             return None
         # dense oracle
@@ -261,7 +274,7 @@ def run(ctx):
         ctx.drv.ask('P set rr poly %s' % E.epoly([O.to_g(t[0][0]) for t in terms], [t[0][1] for t in terms], [t[1] for t in terms]))
         ans = ctx.drv.ask('P reduce rq rr 1 10000000000')
         ctx.count('corr:reduce')
-        if model_coefmap(ans) != ('poly', got):
+        if model_coefmap(ans) != (('poly', got) if got else ('poly', {}, n)):
             ctx.mismatch('reduce', str(terms)[:300], str(model_coefmap(ans))[:400], str(got)[:400])
         strs = [O.from_gp(g, 0)[0] for g in np.asarray(red.gs)]
         ctx.case(('reduce', str(terms)), len(full) >= 2, sample=dict(op='reduce', terms=len(terms), kept=len(got)))
